@@ -16,8 +16,10 @@ package middlewares
 
 import (
 	"net/url"
+	"strings"
 
 	"github.com/gofiber/fiber/v2"
+	"github.com/versity/versitygw/backend"
 	"github.com/versity/versitygw/metrics"
 	"github.com/versity/versitygw/s3api/controllers"
 	"github.com/versity/versitygw/s3err"
@@ -29,6 +31,18 @@ func DecodeURL(logger s3log.AuditLogger, mm *metrics.Manager) fiber.Handler {
 		unescp, err := url.QueryUnescape(string(ctx.Request().URI().PathOriginal()))
 		if err != nil {
 			return controllers.SendResponse(ctx, s3err.GetAPIError(s3err.ErrInvalidURI), &controllers.MetaOpts{Logger: logger, MetricsMng: mm})
+		}
+		// the bucket and key are used as path elements below the gateway
+		// root: names that would resolve elsewhere are refused
+		bucket, key, _ := strings.Cut(strings.TrimPrefix(unescp, "/"), "/")
+		if !backend.IsOpaqueIDValid(bucket) || !backend.IsObjectNameValid(key) {
+			return controllers.SendResponse(ctx, s3err.GetAPIError(s3err.ErrInvalidURI), &controllers.MetaOpts{Logger: logger, MetricsMng: mm})
+		}
+		if !backend.IsOpaqueIDValid(ctx.Query("versionId")) {
+			return controllers.SendResponse(ctx, s3err.GetAPIError(s3err.ErrInvalidVersionId), &controllers.MetaOpts{Logger: logger, MetricsMng: mm})
+		}
+		if !backend.IsOpaqueIDValid(ctx.Query("uploadId")) {
+			return controllers.SendResponse(ctx, s3err.GetAPIError(s3err.ErrNoSuchUpload), &controllers.MetaOpts{Logger: logger, MetricsMng: mm})
 		}
 		ctx.Path(unescp)
 		return ctx.Next()
